@@ -20,6 +20,12 @@ pub fn start() {
     Uci::new().uci_loop(&mut std::io::stdin().lock());
 }
 
+/// Verification entry point: runs the real UCI loop on any reader.
+#[cfg(rce_verif)]
+pub fn verif_loop(input: &mut impl BufRead) {
+    Uci::new().uci_loop(input);
+}
+
 struct Uci {
     board: Board,
     search_running: Option<Arc<AtomicBool>>,
@@ -42,12 +48,18 @@ impl Uci {
             let mut line = String::new();
             input.read_line(&mut line).unwrap();
             let trimmed = line.trim();
+            #[cfg(rce_verif)]
+            crate::verif::sched("M.cmd");
             let fields: Vec<_> = trimmed.split_whitespace().collect();
 
             let command = match UCICommand::new(&fields) {
                 Ok(cmd) => cmd,
                 Err(err) => {
                     self.elog(format!("Failed to parse command: {err}"));
+                    #[cfg(rce_verif)]
+                    crate::verif::observe(trimmed, false, &self.board);
+                    #[cfg(rce_verif)]
+                    crate::verif::sched("M.done");
                     continue;
                 }
             };
@@ -56,9 +68,17 @@ impl Uci {
                 break;
             }
 
+            #[cfg(rce_verif)]
+            let verif_ok = std::cell::Cell::new(true);
             self.execute_command(command).unwrap_or_else(|err| {
                 self.elog(format!("Failed to execute command: {err}"));
+                #[cfg(rce_verif)]
+                verif_ok.set(false);
             });
+            #[cfg(rce_verif)]
+            crate::verif::observe(trimmed, verif_ok.get(), &self.board);
+            #[cfg(rce_verif)]
+            crate::verif::sched("M.done");
         }
     }
 
@@ -142,7 +162,11 @@ impl Uci {
         self.search_running = Some(search.running.clone());
         self.join_handle = Some(thread::spawn(move || {
             search.search(&SimpleEvaluator, max_depth);
+            #[cfg(rce_verif)]
+            crate::verif::sched("S.exit");
         }));
+        #[cfg(rce_verif)]
+        crate::verif::sched("M.spawned");
     }
 
     fn setoption(&self, name: &String, value: Option<&String>) -> Result<(), String> {
